@@ -323,6 +323,12 @@ class Evaluator:
                 and all(k.arg in ("default", "start") for k in e.keywords):
             args = [self.ev(a) for a in e.args]
             kw = {k.arg: self.ev(k.value) for k in e.keywords}
+            if e.func.id == "int" and len(args) == 2 and isinstance(args[0], str) and isinstance(args[1], int):
+                try:
+                    return int(args[0], args[1])
+                except ValueError:
+                    # the builtin's own rejection: a plain ValueError, distinguishable from a raise statement (value None)
+                    raise ModelRaise(Outcome("raise", "ValueError", e))
             try:
                 return {"len": len, "max": max, "min": min, "abs": abs, "int": int, "bool": bool, "sum": sum, "any": any, "all": all, "str": str, "tuple": tuple, "list": tuple, "range": range, "bytes": bytes, "divmod": divmod, "bytearray": bytearray,
                         "reversed": lambda x: tuple(reversed(x)), "enumerate": lambda x, start=0: tuple(enumerate(x, start)), "sorted": lambda x: tuple(sorted(x)),
@@ -506,7 +512,7 @@ class Evaluator:
             seq = self.ev(g.iter)
             if isinstance(seq, dict):
                 seq = tuple(seq)
-            if not isinstance(seq, (tuple, range, bytes)):
+            if not isinstance(seq, (tuple, range, bytes, bytearray, str)):
                 raise Unsupported(e)
             out = []
             names = [g.target.id] if isinstance(g.target, ast.Name) else [x.id for x in g.target.elts]
@@ -729,6 +735,19 @@ class Evaluator:
                 for x, y in zip(tgt.elts, v):
                     self.env[x.id] = y
                 return None
+            if isinstance(tgt, (ast.Tuple, ast.List)) and st.value is not None and not any(isinstance(x, ast.Starred) for x in tgt.elts):
+                # general unpacking: the right-hand side is evaluated completely first, then stored left to right
+                v = self.ev(st.value)
+                if not isinstance(v, tuple) or len(v) != len(tgt.elts):
+                    raise Unsupported(st)
+                for i, (x, y) in enumerate(zip(tgt.elts, v)):
+                    tmp = f"__unpack{i}"
+                    self.env[tmp] = y
+                    o = self.step(ast.copy_location(ast.Assign(targets=[x], value=ast.Name(id=tmp, ctx=ast.Load())), st))
+                    del self.env[tmp]
+                    if o is not None:
+                        return o
+                return None
             if isinstance(tgt, ast.Attribute) and st.value is not None:
                 self._store(tgt, self.ev(st.value), st)
                 return None
@@ -765,8 +784,14 @@ class Evaluator:
                     if isinstance(tgt.slice, ast.Slice):
                         lo = self.ev(tgt.slice.lower) if tgt.slice.lower is not None else None
                         hi = self.ev(tgt.slice.upper) if tgt.slice.upper is not None else None
-                        if tgt.slice.step is not None or not isinstance(val, (bytes, bytearray)):
+                        if not isinstance(val, (bytes, bytearray)):
                             raise Unsupported(st)
+                        if tgt.slice.step is not None:
+                            try:
+                                base[lo:hi:self.ev(tgt.slice.step)] = val
+                            except ValueError:
+                                return Outcome("raise", "ValueError", st)
+                            return None
                         base[lo:hi] = val
                     else:
                         base[self.ev(tgt.slice)] = val
